@@ -94,6 +94,18 @@ def check_case(rec, case):
             if not o.ok:
                 report_failure(rec, o, 'cfg_cyk_matrix', grammar=cf.show(RG), word=w)
                 break
+    if case.get('requery') and len(RG[2]) >= 2:
+        # the same grammar OBJECT after an in-place change (a rule dropped, the start variable moved)
+        G.R.pop()
+        others = sorted(v for v in G.V if v != G.S)
+        if others:
+            G.S = others[0]
+        RGm = adapt.cfg_ref(G)
+        for w in words[:20]:
+            o = call(ca.cfg_accepts_word, G, w)
+            if not o.ok:
+                report_failure(rec, o, 'cfg_accepts_word', grammar=cf.show(RGm), word=w, after_in_place_change=True)
+                break
     if case.get('via_chomsky'):
         # CNF grammars produced by the library's own conversion are CYK-table workloads too
         o = call(ca.cfg_to_chomsky, adapt.build_cfg(RG))
@@ -139,7 +151,7 @@ def gen_cases(rec, rng, tier):
         nv = rng.randint(1, 6)
         RG = cfgg.random_grammar(rng, nv, rng.randint(1, 10), max_rhs=rng.choice([2, 3, 5]), nt=rng.randint(1, 3),
                                  p_eps=rng.choice([0.0, 0.15, 0.3]), p_unit=rng.choice([0.0, 0.2, 0.4]))
-        yield {'cls': 'random_grammar', 'ref': RG, 'n': (6 if thorough else 5) if len(RG[1]) <= 2 else 4, 'via_chomsky': True}
+        yield {'cls': 'random_grammar', 'ref': RG, 'n': (6 if thorough else 5) if len(RG[1]) <= 2 else 4, 'via_chomsky': True, 'requery': True}
         yield {'cls': 'multichar_variable_names', 'ref': cfgg.multichar_renaming(rng, RG), 'n': 4}
         # the same rule list with another start variable, evaluated in the same interpreter
         for tw in cfgg.start_twins(RG)[:2]:
